@@ -81,3 +81,38 @@ def rule_comment_layout(run, prog, rid="R-3.7"):
                    f"(result {out!r}); laid out on the line's tab stops it is {want!r}: the comment line and the tokens after it "
                    f"are measured with a wrong width")
         run.ob(rid, f"{fn.key}::comment-layout", bad is None, msg, fn.node, evaluations=n)
+
+
+def rule_literal_layout(run, prog, rid="R-17.7"):
+    run.rule(rid, "literal layout: parse_string_literal / parse_char_literal, interpreted on every literal body over {tab, letter, "
+             "blank} of length <= 3 opened at columns 1..5, return the raw text unchanged and leave the cursor at the column the "
+             "line's 4-column tab stops give (a raw tab inside a literal is as wide as anywhere else on the line, so text of the "
+             "same displayed width keeps every later column)", floor=2)
+    for name, q in (("parse_string_literal", '"'), ("parse_char_literal", "'")):
+        fn = prog.method("Lexer", name)
+        run.require(fn is not None, f"anchor vanished: Lexer.{name}")
+        bad, n = None, 0
+        try:
+            for prefix in range(0, 5):
+                for k in range(0, 4):
+                    for body in itertools.product("\ta ", repeat=k):
+                        raw = q + "".join(body) + q
+                        n += 1
+                        sim = LexerSim(prog, " " * prefix + raw + ";\n")
+                        if prefix:
+                            sim.call("pop", times=prefix)
+                        out = sim.call(name)
+                        want_text, dl, col = _layout(1 + prefix, raw, expand=False)
+                        got_text = getattr(out.value, "value", None) if out.kind == "ok" else None
+                        got = (got_text, sim.line, sim.line_pos, sim.pos)
+                        want = (want_text, 1, col, prefix + len(raw))
+                        if got != want and bad is None:
+                            bad = (prefix, raw, got, want, out)
+        except Unsupported as e:
+            raise Undecided(f"Lexer.{name} is outside the evaluable subset: {e}")
+        msg = ""
+        if bad:
+            prefix, raw, got, want, out = bad
+            msg = (f"the literal {raw!r} opened at column {1 + prefix} gives (text, line, column, offset) = {got!r} (result {out!r}); "
+                   f"laid out on the line's tab stops it is {want!r}: the tokens after it are reported at a wrong column")
+        run.ob(rid, f"{fn.key}::literal-layout", bad is None, msg, fn.node, evaluations=n)
